@@ -606,6 +606,34 @@ def absorb_renaming_aliases(fn, recorded_names):
         i = 0
         while i < len(blk):
             st = blk[i]
+            # `t = X; if c: t += T; y[sl] = t` (t a new local living only here, y[sl] a plain subscript): the element is
+            # written directly - `y[sl] = X; if c: y[sl] += T`
+            if isinstance(st, ast.Assign) and len(st.targets) == 1 and isinstance(st.targets[0], ast.Subscript) and isinstance(st.targets[0].value, ast.Name) and isinstance(st.value, ast.Name) and st.value.id not in recorded_names and st.value.id not in _params(fn):
+                import copy as _copy
+
+                tgt, b = st.targets[0], st.value.id
+                occ = [n for n in ast.walk(fn) if isinstance(n, ast.Name) and n.id == b]
+                where = [next((jj for jj in range(i + 1) if any(x is o for x in ast.walk(blk[jj]))), None) for o in occ]
+                names_t = {x.id for x in ast.walk(tgt) if isinstance(x, ast.Name)}
+                if all(w is not None for w in where) and not any(isinstance(x, ast.Call) for x in ast.walk(tgt)):
+                    j0 = min(where)
+                    loads = [o for o in occ if isinstance(o.ctx, ast.Load)]
+                    # every load of t is the alias statement itself (augmented assignments carry a Store target)
+                    touched = any(isinstance(x, ast.Name) and x.id in names_t and isinstance(x.ctx, (ast.Store, ast.Del)) for jj in range(j0, i) for x in ast.walk(blk[jj])) or any(isinstance(x, ast.Subscript) and isinstance(x.value, ast.Name) and x.value.id == tgt.value.id for jj in range(j0, i) for x in ast.walk(blk[jj]))
+                    if len(loads) == 1 and loads[0] is st.value and not touched:
+
+                        class R_(ast.NodeTransformer):
+                            def visit_Name(self, n):
+                                if n.id == b and isinstance(n.ctx, ast.Store):
+                                    return ast.copy_location(_copy.deepcopy(tgt), n)
+                                return n
+
+                        for jj in range(j0, i):
+                            blk[jj] = R_().visit(blk[jj])
+                            ast.fix_missing_locations(blk[jj])
+                        del blk[i]
+                        k += 1
+                        continue
             if isinstance(st, ast.Assign) and len(st.targets) == 1 and isinstance(st.targets[0], ast.Name) and isinstance(st.value, ast.Name):
                 a, b = st.targets[0].id, st.value.id
                 stores_b = [n for n in ast.walk(fn) if isinstance(n, ast.Name) and n.id == b and isinstance(n.ctx, ast.Store)]
@@ -1329,6 +1357,8 @@ def normalise(project, path=PINNED):
                     progress += split_ret_tuples(fi.node)
                 if not progress:
                     progress += collapse_copy_in_out(fi.node, rec_names | _params(fi.node))
+                if not progress:
+                    progress += split_conditional_addend(fi.node, rec_names | _params(fi.node))
                 if not progress:
                     progress += split_selector_conditionals(fi.node, rec_names | _params(fi.node))
                 if not progress:
@@ -2095,6 +2125,64 @@ def collapse_copy_in_out(fn, rec_names):
         walk(fn.body, [])
         if done[0] == before:
             break
+    return done[0]
+
+
+_SCA = [0]
+
+
+def split_conditional_addend(fn, rec_names):
+    """`y = X + T if c else X`  ->  `t = X; if c: t += T; y = t` (t a fresh local): the form an inlined early-return
+    helper (`if c: return a + T` / `return a`) leaves where the recorded code adds the term under an `if`."""
+    import copy
+
+    done = [0]
+    for _owner, blk in list(_blocks(fn)):
+        i = 0
+        while i < len(blk):
+            st = blk[i]
+            if isinstance(st, ast.Assign) and len(st.targets) == 1 and isinstance(st.value, ast.IfExp):
+                v = st.value
+                body, other, test = v.body, v.orelse, v.test
+                neg = False
+                if isinstance(other, ast.BinOp) and isinstance(other.op, ast.Add) and not (isinstance(body, ast.BinOp) and isinstance(body.op, ast.Add) and ast.unparse(body.left) == ast.unparse(other)):
+                    body, other, neg = other, body, True
+                tg = st.targets[0]
+                simple_tg = isinstance(tg, ast.Name) or (isinstance(tg, ast.Subscript) and isinstance(tg.value, ast.Name))
+                if simple_tg and isinstance(body, ast.BinOp) and isinstance(body.op, ast.Add) and ast.unparse(body.left) == ast.unparse(other):
+                    cond = ast.UnaryOp(op=ast.Not(), operand=copy.deepcopy(test)) if neg else copy.deepcopy(test)
+                    new = [
+                        ast.Assign(targets=[copy.deepcopy(tg)], value=copy.deepcopy(other)),
+                        ast.If(test=cond, body=[ast.AugAssign(target=copy.deepcopy(tg), op=ast.Add(), value=copy.deepcopy(body.right))], orelse=[]),
+                    ]
+                    for x in new:
+                        ast.copy_location(x, st)
+                        ast.fix_missing_locations(x)
+                    blk[i : i + 1] = new
+                    done[0] += 1
+                    i += 2
+                    continue
+            # `if c: y = X + T else: y = X` (either way round)
+            if isinstance(st, ast.If) and len(st.body) == 1 and len(st.orelse) == 1 and all(isinstance(b_, ast.Assign) and len(b_.targets) == 1 for b_ in (st.body[0], st.orelse[0])) and ast.unparse(st.body[0].targets[0]) == ast.unparse(st.orelse[0].targets[0]):
+                a_, b_ = st.body[0].value, st.orelse[0].value
+                tg = st.body[0].targets[0]
+                neg = False
+                if isinstance(b_, ast.BinOp) and isinstance(b_.op, ast.Add) and ast.unparse(b_.left) == ast.unparse(a_):
+                    a_, b_, neg = b_, a_, True
+                if (isinstance(tg, ast.Name) or (isinstance(tg, ast.Subscript) and isinstance(tg.value, ast.Name))) and isinstance(a_, ast.BinOp) and isinstance(a_.op, ast.Add) and ast.unparse(a_.left) == ast.unparse(b_):
+                    cond = ast.UnaryOp(op=ast.Not(), operand=copy.deepcopy(st.test)) if neg else copy.deepcopy(st.test)
+                    new = [
+                        ast.Assign(targets=[copy.deepcopy(tg)], value=copy.deepcopy(b_)),
+                        ast.If(test=cond, body=[ast.AugAssign(target=copy.deepcopy(tg), op=ast.Add(), value=copy.deepcopy(a_.right))], orelse=[]),
+                    ]
+                    for x in new:
+                        ast.copy_location(x, st)
+                        ast.fix_missing_locations(x)
+                    blk[i : i + 1] = new
+                    done[0] += 1
+                    i += 2
+                    continue
+            i += 1
     return done[0]
 
 
